@@ -247,3 +247,339 @@ Proof.
   - apply constraints_eqv_bounds.
   - apply constraints_eqv_lengths.
 Qed.
+
+(* decimal printing / parsing round trip, number normal forms: `Import FEDec.` *)
+Module FEDec.
+Local Open Scope list_scope.
+(* ====================================================================================================
+   Decimal printing (Model/FrontEnd.v: nat_string, z_string, dec_string) then parsing (GoSemValidate.parse_dec)
+   ==================================================================================================== *)
+Local Open Scope Z_scope.
+
+Fixpoint digs (fuel : nat) (z : Z) : list ascii :=
+  match fuel with
+  | O => []
+  | S f => if Z.ltb z 10 then [digit_of (Z.modulo z 10)] else digs f (Z.div z 10) ++ [digit_of (Z.modulo z 10)]
+  end.
+
+Lemma str_list_app a b : str_list (a ++ b)%string = str_list a ++ str_list b.
+Proof. induction a; simpl; auto. rewrite IHa. reflexivity. Qed.
+Lemma str_list_length a : List.length (str_list a) = String.length a.
+Proof. induction a; simpl; auto. Qed.
+
+Lemma z_digits_digs : forall f z acc, str_list (z_digits f z acc) = digs f z ++ str_list acc.
+Proof.
+  induction f as [|f IH]; intros z acc; simpl; auto.
+  destruct (Z.ltb z 10); simpl; auto.
+  rewrite IH. simpl. rewrite <- app_assoc. reflexivity.
+Qed.
+
+Definition is_digit (c : ascii) : bool := match digit_val c with Some _ => true | None => false end.
+
+Lemma digit_of_val d : 0 <= d < 10 -> digit_val (digit_of d) = Some (Z.to_nat d).
+Proof.
+  intro H. assert (E : d = 0 \/ d = 1 \/ d = 2 \/ d = 3 \/ d = 4 \/ d = 5 \/ d = 6 \/ d = 7 \/ d = 8 \/ d = 9) by lia.
+  repeat (destruct E as [E|E]; [subst; reflexivity|]). subst. reflexivity.
+Qed.
+
+Local Opaque digit_of.
+Lemma is_digit_neq c x : is_digit c = true -> is_digit x = false -> Ascii.eqb c x = false.
+Proof. intros H1 H2. destruct (Ascii.eqb_spec c x); auto. subst. congruence. Qed.
+
+Lemma digits_val_app l1 l2 a :
+  digits_val (l1 ++ l2) a = match digits_val l1 a with Some v => digits_val l2 v | None => None end.
+Proof.
+  revert a. induction l1 as [|c r IH]; intro a; simpl; auto.
+  destruct (digit_val c); auto.
+Qed.
+
+Lemma mod10_range z : 0 <= z mod 10 < 10.
+Proof. apply Z.mod_pos_bound. lia. Qed.
+
+Lemma digs_all_digits : forall f z, Forall (fun c => is_digit c = true) (digs f z).
+Proof.
+  induction f as [|f IH]; intro z; simpl; [constructor|].
+  assert (D : is_digit (digit_of (z mod 10)) = true).
+  { unfold is_digit. rewrite digit_of_val by apply mod10_range. reflexivity. }
+  destruct (Z.ltb z 10).
+  - constructor; auto.
+  - apply Forall_app. split; auto.
+Qed.
+
+Lemma digs_nonempty f z : digs (S f) z <> [].
+Proof. simpl. destruct (Z.ltb z 10); [discriminate|]. destruct (digs f (z / 10)); discriminate. Qed.
+
+Lemma digs_length_le : forall f z (k : nat), (0 < k)%nat -> z < 10 ^ Z.of_nat k -> (List.length (digs f z) <= k)%nat.
+Proof.
+  induction f as [|f IH]; intros z k K H; simpl; [lia|].
+  destruct (Z.ltb_spec z 10); simpl; [lia|].
+  rewrite app_length. simpl.
+  destruct k as [|k]; [lia|]. destruct k as [|k].
+  - change (10 ^ Z.of_nat 1) with 10 in H. lia.
+  - assert (L : (List.length (digs f (z / 10)) <= S k)%nat).
+    { apply IH; [lia|]. apply Z.div_lt_upper_bound; [lia|].
+      replace (Z.of_nat (S (S k))) with (Z.succ (Z.of_nat (S k))) in H by lia.
+      rewrite Z.pow_succ_r in H by lia. exact H. }
+    lia.
+Qed.
+
+Lemma digs_val : forall f z a, 0 <= z < 2 ^ Z.of_nat f ->
+  digits_val (digs f z) a = Some (a * 10 ^ Z.of_nat (List.length (digs f z)) + z).
+Proof.
+  induction f as [|f IH]; intros z a H.
+  - change (2 ^ Z.of_nat 0) with 1 in H. simpl. f_equal. lia.
+  - simpl. destruct (Z.ltb_spec z 10).
+    + simpl. rewrite digit_of_val by apply mod10_range. rewrite Z2Nat.id by apply mod10_range.
+      rewrite Z.mod_small by lia. change (Z.pow_pos 10 1) with 10. reflexivity.
+    + rewrite digits_val_app.
+      assert (H2 : 0 <= z / 10 < 2 ^ Z.of_nat f).
+      { split; [apply Z.div_pos; lia|]. apply Z.div_lt_upper_bound; [lia|].
+        replace (Z.of_nat (S f)) with (Z.succ (Z.of_nat f)) in H by lia. rewrite Z.pow_succ_r in H by lia.
+        assert (0 < 2 ^ Z.of_nat f) by (apply Z.pow_pos_nonneg; lia). lia. }
+      rewrite (IH _ _ H2). simpl. rewrite digit_of_val by apply mod10_range. rewrite Z2Nat.id by apply mod10_range.
+      f_equal. rewrite app_length. simpl.
+      replace (Z.of_nat (List.length (digs f (z / 10)) + 1)) with (Z.succ (Z.of_nat (List.length (digs f (z / 10))))) by lia.
+      rewrite Z.pow_succ_r by lia. pose proof (Z.div_mod z 10). lia.
+Qed.
+
+Definition ndigs (z : Z) : list ascii := digs (S (Z.to_nat (Z.log2_up (z + 1)))) z.
+Lemma nat_string_digs z : str_list (nat_string z) = ndigs z.
+Proof. unfold nat_string, ndigs. rewrite z_digits_digs. simpl. apply app_nil_r. Qed.
+
+Lemma ndigs_fuel z : 0 <= z -> 0 <= z < 2 ^ Z.of_nat (S (Z.to_nat (Z.log2_up (z + 1)))).
+Proof.
+  intro H. split; auto.
+  rewrite Nat2Z.inj_succ. rewrite Z2Nat.id by apply Z.log2_up_nonneg.
+  rewrite Z.pow_succ_r by apply Z.log2_up_nonneg.
+  destruct (Z.eq_dec z 0) as [E|E].
+  - subst. simpl. lia.
+  - assert (X : 1 < z + 1) by lia. pose proof (Z.log2_up_spec (z + 1) X) as [_ Y].
+    assert (0 < 2 ^ Z.log2_up (z + 1)) by (apply Z.pow_pos_nonneg; [lia|apply Z.log2_up_nonneg]). lia.
+Qed.
+
+Lemma ndigs_val z a : 0 <= z -> digits_val (ndigs z) a = Some (a * 10 ^ Z.of_nat (List.length (ndigs z)) + z).
+Proof. intro H. apply digs_val. apply ndigs_fuel. exact H. Qed.
+Lemma ndigs_digits z : Forall (fun c => is_digit c = true) (ndigs z).
+Proof. apply digs_all_digits. Qed.
+Lemma ndigs_nonempty z : ndigs z <> [].
+Proof. apply digs_nonempty. Qed.
+Lemma ndigs_length_le z (k : nat) : (0 < k)%nat -> z < 10 ^ Z.of_nat k -> (List.length (ndigs z) <= k)%nat.
+Proof. apply digs_length_le. Qed.
+
+(* ---------- the pieces of parse_dec on digit lists ---------- *)
+Lemma split_at_none x l : Forall (fun c => Ascii.eqb c x = false) l -> split_at x l = (l, None).
+Proof.
+  induction 1 as [|c r Hc Hr IH]; simpl; auto. rewrite Hc, IH. reflexivity.
+Qed.
+Lemma split_at_app x l1 l2 : Forall (fun c => Ascii.eqb c x = false) l1 -> split_at x (l1 ++ x :: l2) = (l1, Some l2).
+Proof.
+  induction 1 as [|c r Hc Hr IH]; simpl.
+  - rewrite Ascii.eqb_refl. reflexivity.
+  - rewrite Hc, IH. reflexivity.
+Qed.
+Lemma digits_not x l : is_digit x = false -> Forall (fun c => is_digit c = true) l -> Forall (fun c => Ascii.eqb c x = false) l.
+Proof. intros Hx H. eapply Forall_impl; [|exact H]. intros c Hc. apply is_digit_neq; auto. Qed.
+
+Lemma signed_digits l : l <> [] -> Forall (fun c => is_digit c = true) l -> signed l = (false, l).
+Proof.
+  intros NE H. destruct l as [|c r]; [congruence|]. inversion H; subst.
+  unfold signed. rewrite (is_digit_neq c "-"%char), (is_digit_neq c "+"%char); auto.
+Qed.
+
+Lemma digits_val_zeros n a : digits_val (repeat "0"%char n) a = Some (a * 10 ^ Z.of_nat n).
+Proof.
+  revert a. induction n as [|n IH]; intro a.
+  - simpl. f_equal. lia.
+  - cbn [repeat digits_val]. change (digit_val "0"%char) with (Some 0%nat). cbv iota beta. rewrite IH. f_equal.
+    rewrite Nat2Z.inj_succ, Z.pow_succ_r by lia. change (Z.of_nat 0) with 0. ring.
+Qed.
+Lemma str_list_zeros n : str_list (zeros n) = repeat "0"%char n.
+Proof. induction n; simpl; auto. rewrite IHn. reflexivity. Qed.
+
+(* integers: parse (print z) = (z, 0) *)
+Lemma parse_z_string z : parse_dec (z_string z) = Some (z, 0).
+Proof.
+  unfold parse_dec, z_string. destruct (Z.ltb_spec z 0).
+  - rewrite str_list_app, nat_string_digs. simpl str_list.
+    change (signed (("-"%char :: []) ++ ndigs (- z))) with (true, ndigs (- z)).
+    pose proof (ndigs_digits (- z)) as D. pose proof (ndigs_nonempty (- z)) as NE.
+    cbv beta iota. rewrite (split_at_none "e"%char) by (apply digits_not; auto).
+    cbv beta iota. rewrite (split_at_none "."%char) by (apply digits_not; auto).
+    cbv beta iota. rewrite app_nil_r. rewrite ndigs_val by lia.
+    destruct (ndigs (- z)) eqn:E; [congruence|]. simpl. f_equal. f_equal. lia.
+  - rewrite nat_string_digs.
+    pose proof (ndigs_digits z) as D. pose proof (ndigs_nonempty z) as NE.
+    rewrite signed_digits by auto.
+    cbv beta iota. rewrite (split_at_none "e"%char) by (apply digits_not; auto).
+    cbv beta iota. rewrite (split_at_none "."%char) by (apply digits_not; auto).
+    cbv beta iota. rewrite app_nil_r. rewrite ndigs_val by lia.
+    destruct (ndigs z) eqn:E; [congruence|]. simpl. reflexivity.
+Qed.
+
+Definition parse_core (neg : bool) (body : list ascii) : option (Z * Z) :=
+  let '(mant, ex) := split_at "e"%char body in
+  let '(ip, fp) := split_at "."%char mant in
+  let fp := match fp with Some f => f | None => [] end in
+  match digits_val (ip ++ fp)%list 0, (ip ++ fp)%list with
+  | Some m, _ :: _ =>
+      let e0 := (- Z.of_nat (List.length fp))%Z in
+      match ex with
+      | None => Some (if neg then (- m)%Z else m, e0)
+      | Some x =>
+          let '(eneg, eb) := signed x in
+          match digits_val eb 0, eb with
+          | Some ev, _ :: _ => Some (if neg then (- m)%Z else m, (e0 + (if eneg then - ev else ev))%Z)
+          | _, _ => None
+          end
+      end
+  | _, _ => None
+  end.
+Lemma parse_dec_core s : parse_dec s = parse_core (fst (signed (str_list s))) (snd (signed (str_list s))).
+Proof. unfold parse_dec, parse_core. destruct (signed (str_list s)). reflexivity. Qed.
+
+(* fractions: parse (print (m, e)) = (m, e) exactly when e < 0 *)
+Lemma parse_dec_string_neg m e : e < 0 -> parse_dec (dec_string m e) = Some (m, e).
+Proof.
+  intro E. unfold dec_string. destruct (Z.leb_spec 0 e); [lia|].
+  set (k := Z.to_nat (- e)). set (a := Z.abs m).
+  assert (Kp : (0 < k)%nat) by (unfold k; lia).
+  assert (KE : Z.of_nat k = - e) by (unfold k; lia).
+  assert (P10 : 0 < 10 ^ (- e)) by (apply Z.pow_pos_nonneg; lia).
+  set (ipz := a / 10 ^ (- e)). set (fz := a mod 10 ^ (- e)).
+  assert (Hip : 0 <= ipz) by (apply Z.div_pos; unfold a; lia).
+  assert (Hfz : 0 <= fz < 10 ^ (- e)) by (apply Z.mod_pos_bound; lia).
+  assert (Ha : a = ipz * 10 ^ (- e) + fz) by (unfold ipz, fz; pose proof (Z.div_mod a (10 ^ (- e))); lia).
+  pose proof (ndigs_digits ipz) as D1. pose proof (ndigs_nonempty ipz) as NE1.
+  pose proof (ndigs_digits fz) as DF.
+  assert (LF : (List.length (ndigs fz) <= k)%nat) by (apply ndigs_length_le; [exact Kp|rewrite KE; lia]).
+  set (D2 := repeat "0"%char (k - List.length (ndigs fz)) ++ ndigs fz).
+  assert (DD2 : Forall (fun c => is_digit c = true) D2).
+  { unfold D2. apply Forall_app. split; auto. apply Forall_forall. intros c I. apply repeat_spec in I. subst. reflexivity. }
+  assert (L2 : List.length D2 = k).
+  { unfold D2. rewrite app_length, repeat_length. lia. }
+  assert (BODY : str_list (nat_string ipz ++ "." ++ zeros (k - String.length (nat_string fz)) ++ nat_string fz)%string
+                 = ndigs ipz ++ "."%char :: D2).
+  { rewrite !str_list_app. rewrite !nat_string_digs, str_list_zeros. rewrite <- str_list_length, nat_string_digs. reflexivity. }
+  assert (V : digits_val (ndigs ipz ++ D2) 0 = Some a).
+  { rewrite digits_val_app, ndigs_val by exact Hip. unfold D2. rewrite digits_val_app, digits_val_zeros.
+    rewrite ndigs_val by lia. f_equal. rewrite Ha.
+    replace (- e) with (Z.of_nat (k - List.length (ndigs fz)) + Z.of_nat (List.length (ndigs fz))) by lia.
+    rewrite Z.pow_add_r by lia. ring. }
+  assert (CORE : forall neg : bool, parse_core neg (ndigs ipz ++ "."%char :: D2) = Some (if neg then - a else a, e)).
+  { intro neg. unfold parse_core.
+    rewrite (split_at_none "e"%char).
+    2:{ apply Forall_app. split; [apply digits_not; auto|]. constructor; [reflexivity|apply digits_not; auto]. }
+    cbv beta iota. rewrite (split_at_app "."%char) by (apply digits_not; auto).
+    cbv beta iota zeta. rewrite V.
+    destruct (ndigs ipz ++ D2) eqn:EQ.
+    - destruct (ndigs ipz); [congruence|discriminate].
+    - rewrite L2. f_equal. f_equal. lia. }
+  rewrite parse_dec_core. destruct (Z.ltb_spec m 0).
+  - fold k a ipz fz. rewrite str_list_app. rewrite BODY. simpl str_list.
+    change (signed (("-"%char :: []) ++ ndigs ipz ++ "."%char :: D2)) with (true, ndigs ipz ++ "."%char :: D2).
+    cbn [fst snd]. rewrite (CORE true). f_equal. f_equal. unfold a. lia.
+  - fold k a ipz fz. rewrite str_list_app. rewrite BODY. change (str_list "") with (@nil ascii). cbn [app].
+    assert (SG : signed (ndigs ipz ++ "."%char :: D2) = (false, ndigs ipz ++ "."%char :: D2)).
+    { destruct (ndigs ipz) as [|c r] eqn:EQ; [congruence|]. inversion D1; subst.
+      cbn [app]. unfold signed. rewrite (is_digit_neq c "-"%char), (is_digit_neq c "+"%char); auto. }
+    rewrite SG. cbn [fst snd]. rewrite (CORE false). f_equal. f_equal. unfold a. lia.
+Qed.
+
+(* ---------- comparison is by value ---------- *)
+Lemma dec_compare_shift m1 e1 m2 e2 c : c <= e1 -> c <= e2 ->
+  dec_compare (m1, e1) (m2, e2) = (m1 * 10 ^ (e1 - c) ?= m2 * 10 ^ (e2 - c)).
+Proof.
+  intros H1 H2. unfold dec_compare. set (mn := Z.min e1 e2).
+  assert (M1 : mn <= e1) by (unfold mn; lia). assert (M2 : mn <= e2) by (unfold mn; lia).
+  assert (MC : c <= mn) by (unfold mn; lia).
+  replace (e1 - c) with ((e1 - mn) + (mn - c)) by lia. replace (e2 - c) with ((e2 - mn) + (mn - c)) by lia.
+  rewrite !Z.pow_add_r by lia. rewrite !Z.mul_assoc.
+  assert (P : 0 < 10 ^ (mn - c)) by (apply Z.pow_pos_nonneg; lia).
+  apply Zmult_compare_compat_r. lia.
+Qed.
+
+Lemma dec_compare_int_form x m e : 0 <= e -> dec_compare x (m * 10 ^ e, 0) = dec_compare x (m, e).
+Proof.
+  intro H. destruct x as [a f]. set (c := Z.min f 0).
+  rewrite (dec_compare_shift a f (m * 10 ^ e) 0 c) by (unfold c; lia).
+  rewrite (dec_compare_shift a f m e c) by (unfold c; lia).
+  replace (e - c) with (e + (0 - c)) by lia. rewrite Z.pow_add_r by (unfold c; lia). rewrite Z.mul_assoc. reflexivity.
+Qed.
+
+(* the round trip, by value: what cstr_holds_json reads off a printed float64 bound *)
+Lemma dec_roundtrip m e : exists p, parse_dec (dec_string m e) = Some p /\ forall x, dec_compare x p = dec_compare x (m, e).
+Proof.
+  destruct (Z.leb_spec 0 e).
+  - exists (m * 10 ^ e, 0). split.
+    + unfold dec_string. destruct (Z.leb_spec 0 e); [|lia]. apply parse_z_string.
+    + intro x. apply dec_compare_int_form. exact H.
+  - exists (m, e). split; [apply parse_dec_string_neg; exact H|reflexivity].
+Qed.
+Lemma dec_roundtrip_nonpos m e : e <= 0 -> parse_dec (dec_string m e) = Some (m, e).
+Proof.
+  intro H. destruct (Z.eq_dec e 0) as [E|E].
+  - subst. unfold dec_string. simpl Z.leb. cbv iota. change (10 ^ 0) with 1. rewrite Z.mul_1_r. apply parse_z_string.
+  - apply parse_dec_string_neg. lia.
+Qed.
+
+(* ---------- normal forms of numbers (Model/Json.v num_norm) ---------- *)
+Lemma strip_zeros_spec : forall f m e, m <> 0 -> Z.abs m < 2 ^ Z.of_nat f ->
+  let '(a, b) := strip_zeros f m e in e <= b /\ a * 10 ^ (b - e) = m /\ a mod 10 <> 0.
+Proof.
+  induction f as [|f IH]; intros m e NZ H.
+  - change (2 ^ Z.of_nat 0) with 1 in H. lia.
+  - cbn [strip_zeros]. destruct (Z.eqb_spec (m mod 10) 0) as [E|E].
+    + destruct (Z.eqb_spec m 0) as [E0|E0]; [congruence|]. cbn [negb andb].
+      pose proof (Z.div_mod m 10) as DM. rewrite E in DM.
+      assert (Q : m = 10 * (m / 10)) by lia.
+      assert (NZ' : m / 10 <> 0) by lia.
+      assert (H' : Z.abs (m / 10) < 2 ^ Z.of_nat f).
+      { rewrite Nat2Z.inj_succ, Z.pow_succ_r in H by lia. lia. }
+      specialize (IH (m / 10) (e + 1) NZ' H'). destruct (strip_zeros f (m / 10) (e + 1)) as [a b].
+      destruct IH as [I1 [I2 I3]]. split; [lia|]. split; auto.
+      replace (b - e) with (Z.succ (b - (e + 1))) by lia. rewrite Z.pow_succ_r by lia.
+      rewrite Q. rewrite <- I2. ring.
+    + cbn [andb]. split; [lia|]. split; auto. rewrite Z.sub_diag. change (10 ^ 0) with 1. lia.
+Qed.
+
+Lemma num_norm_spec m e : m <> 0 ->
+  let '(a, b) := num_norm m e in e <= b /\ a * 10 ^ (b - e) = m /\ a mod 10 <> 0.
+Proof.
+  intro NZ. unfold num_norm. destruct (Z.eqb_spec m 0); [congruence|].
+  apply strip_zeros_spec; auto.
+  rewrite Nat2Z.inj_succ. rewrite Z2Nat.id by apply Z.log2_up_nonneg. rewrite Z.pow_succ_r by apply Z.log2_up_nonneg.
+  assert (P : 0 < 2 ^ Z.log2_up (Z.abs m)) by (apply Z.pow_pos_nonneg; [lia|apply Z.log2_up_nonneg]).
+  destruct (Z.eq_dec (Z.abs m) 1) as [E1|E1].
+  - rewrite E1. simpl. lia.
+  - assert (X : 1 < Z.abs m) by lia. pose proof (Z.log2_up_spec _ X) as [_ Y]. lia.
+Qed.
+
+Lemma pow10_unique : forall (i j : nat) a a', a mod 10 <> 0 -> a' mod 10 <> 0 ->
+  a * 10 ^ Z.of_nat i = a' * 10 ^ Z.of_nat j -> i = j /\ a = a'.
+Proof.
+  induction i as [|i IH]; intros [|j] a a' Ha Ha' E.
+  - change (10 ^ Z.of_nat 0) with 1 in E. split; auto. lia.
+  - exfalso. rewrite Nat2Z.inj_succ, Z.pow_succ_r in E by lia. change (10 ^ Z.of_nat 0) with 1 in E.
+    apply Ha. replace a with ((a' * 10 ^ Z.of_nat j) * 10) by lia. apply Z.mod_mul. lia.
+  - exfalso. rewrite Nat2Z.inj_succ, Z.pow_succ_r in E by lia. change (10 ^ Z.of_nat 0) with 1 in E.
+    apply Ha'. replace a' with ((a * 10 ^ Z.of_nat i) * 10) by lia. apply Z.mod_mul. lia.
+  - rewrite !Nat2Z.inj_succ, !Z.pow_succ_r in E by lia.
+    destruct (IH j a a' Ha Ha') as [E1 E2]; [lia|]. split; auto.
+Qed.
+
+Lemma num_norm_value m e : 0 <= e -> num_norm (m * 10 ^ e) 0 = num_norm m e.
+Proof.
+  intro H. destruct (Z.eq_dec m 0) as [E|NZ].
+  - subst. reflexivity.
+  - assert (P : 0 < 10 ^ e) by (apply Z.pow_pos_nonneg; lia).
+    assert (NZ' : m * 10 ^ e <> 0) by (apply Z.neq_mul_0; split; lia).
+    pose proof (num_norm_spec (m * 10 ^ e) 0 NZ') as S1. pose proof (num_norm_spec m e NZ) as S2.
+    destruct (num_norm (m * 10 ^ e) 0) as [a b]. destruct (num_norm m e) as [a' b'].
+    destruct S1 as [B1 [V1 M1]]. destruct S2 as [B2 [V2 M2]].
+    rewrite Z.sub_0_r in V1.
+    assert (V : a * 10 ^ Z.of_nat (Z.to_nat b) = a' * 10 ^ Z.of_nat (Z.to_nat b')).
+    { rewrite !Z2Nat.id by lia. rewrite V1. rewrite <- V2 at 1.
+      rewrite <- Z.mul_assoc, <- Z.pow_add_r by lia. f_equal. f_equal. lia. }
+    destruct (pow10_unique _ _ _ _ M1 M2 V) as [E1 E2]. subst a'. f_equal. lia.
+Qed.
+End FEDec.
